@@ -66,9 +66,7 @@ def check_fixture(ctx, case):
     src = fixtures.DATA / case["fixture"]
     tmp = Path(tempfile.mkdtemp(prefix="vf_c07_"))
     try:
-        source = ctx.guard(("C07", "independent_decode_failed_source"), case, validate.load, src)
-        if source is None:
-            return
+        source = validate.load(src)  # harness code on a shipped fixture: a failure here is a harness error, not a violation
         with warnings.catch_warnings():
             warnings.simplefilter("ignore")
             doc = ctx.guard(("C07", "open"), case, Document, src)
